@@ -804,3 +804,48 @@ def self_aliases_inlined(node):
         ast.fix_missing_locations(fn)
     set_parents(new)
     return new
+
+
+def data_aliases_inlined(fn):
+    """a copy of `fn` in which a local assigned exactly once, at the top level of the function, from `<name>.data` (the raw buffer of a carray held in another local that is
+    itself assigned at most once before) is replaced by that expression: `p = arr.data; p[i] = v` is `arr.data[i] = v`"""
+    from . import norm as N_
+    new = N_.clone(fn)
+    stores = {}
+    decl = set(id(a.target) for a in ast.walk(new) if isinstance(a, ast.AnnAssign) and a.value is None)        # bare declarations (cdef int* p) assign nothing
+    for x in ast.walk(new):
+        if isinstance(x, ast.Name) and isinstance(x.ctx, (ast.Store, ast.Del)) and id(x) not in decl:
+            stores[x.id] = stores.get(x.id, 0) + 1
+    good = {}
+    drop = []
+    for st in new.body:
+        tg = v = None
+        if isinstance(st, ast.Assign) and len(st.targets) == 1 and isinstance(st.targets[0], ast.Name):
+            tg, v = st.targets[0], st.value
+        elif isinstance(st, ast.AnnAssign) and isinstance(st.target, ast.Name) and st.value is not None:
+            tg, v = st.target, st.value
+        if tg is None:
+            continue
+        while isinstance(v, ast.Call) and isinstance(v.func, ast.Name) and v.func.id in ('__cast__', 'cast') and v.args:
+            v = v.args[-1]
+        if isinstance(v, ast.Attribute) and v.attr == 'data' and isinstance(v.value, ast.Name) and stores.get(tg.id, 0) == 1 and stores.get(v.value.id, 0) <= 1:
+            good[tg.id] = v
+            drop.append(st)
+
+    if not good:
+        return new
+
+    class R(ast.NodeTransformer):
+        def visit_Name(self, n):
+            if isinstance(n.ctx, ast.Load) and n.id in good:
+                return ast.copy_location(ast.Attribute(value=ast.Name(id=good[n.id].value.id, ctx=ast.Load()), attr='data', ctx=ast.Load()), n)
+            return n
+    body = []
+    for st in new.body:
+        if st in drop:
+            continue
+        body.append(R().visit(st))
+    new.body = body
+    ast.fix_missing_locations(new)
+    set_parents(new)
+    return new
